@@ -113,4 +113,9 @@ def obs_signature(obs, with_error_class=False):
     t = obs["terminal"]
     if not with_error_class:
         t = t[:1]
+        # a stream that ends inside an over-limit / malformed head is "premature end" when the EOF is
+        # seen in the same read and "rejected" when the bad part arrived earlier: same point, same
+        # effect (no request handed over) - compared as one class
+        if t[0] in ("premature", "reject"):
+            t = ("refused",)
     return (tuple(reqs), t)
